@@ -1197,6 +1197,9 @@ class Expr:
             "expm1",
             "ceil",
             "floor",
+            "round",
+            "truncate",
+            "nextafter",
             "logical_not",
             "sign",
             "copysign",
